@@ -461,6 +461,62 @@ impl<'h> Exec<'h> {
         None
     }
 
+    /// The signature of the known recovery defect F-C01-1 on a store that has just been opened:
+    /// (1) some level holds two files whose key ranges touch and whose timestamp ranges
+    /// interleave (for such a pair the file metadata cannot say which is newer), and (2) a point
+    /// lookup through the tree disagrees with the newest version present in the tree's own files.
+    /// Both are computed from the recovered tree alone.  A recovery that misplaces files whose
+    /// timestamp ranges do *not* interleave is not covered by this signature.
+    pub fn recovery_misorder_signature(&mut self) -> Option<String> {
+        let levels = self.store.as_ref()?.tree().verif_levels();
+        let mut pair = None;
+        'outer: for (li, l) in levels.iter().enumerate() {
+            for a in 0..l.len() {
+                for b in a + 1..l.len() {
+                    let (fa, fb) = (&l[a], &l[b]);
+                    let touch = fa.1 <= fb.2 && fb.1 <= fa.2;
+                    let interleaved = fa.3 <= fb.4 && fb.3 <= fa.4;
+                    if touch && interleaved {
+                        pair = Some(format!(
+                            "L{li} holds {}[{}..{}]ts{}..{} and {}[{}..{}]ts{}..{}",
+                            &fa.0.hexdigest()[..8], fmt_key(&fa.1), fmt_key(&fa.2), fa.3, fa.4,
+                            &fb.0.hexdigest()[..8], fmt_key(&fb.1), fmt_key(&fb.2), fb.3, fb.4
+                        ));
+                        break 'outer;
+                    }
+                }
+            }
+        }
+        let pair = pair?;
+        let snap = crate::conserve::snapshot(self).ok()?;
+        let mut newest: std::collections::BTreeMap<Vec<u8>, (u64, Option<Vec<u8>>)> = std::collections::BTreeMap::new();
+        for f in snap.files.values() {
+            for (k, ts, v) in f.entries.iter() {
+                match newest.get(k) {
+                    Some((t, _)) if *t >= *ts => {}
+                    _ => {
+                        newest.insert(k.clone(), (*ts, v.clone()));
+                    }
+                }
+            }
+        }
+        let tree = self.store.as_ref()?.tree();
+        for (k, (ts, v)) in newest.iter() {
+            let mut tomb = false;
+            if let Ok(got) = tree.load(k, &mut tomb) {
+                if got != *v {
+                    return Some(format!(
+                        "{pair}; lookup of {} returns {} but the newest version in the tree's files is @{ts} {}",
+                        fmt_key(k),
+                        fmt_val(&got),
+                        fmt_val(v)
+                    ));
+                }
+            }
+        }
+        None
+    }
+
     pub fn violate(&mut self, property: &str, class: impl Into<String>, detail: impl Into<String>) {
         let mut class: String = class.into();
         let mut detail: String = detail.into();
@@ -800,6 +856,11 @@ impl<'h> Exec<'h> {
             };
             if let Err(e) = r {
                 let e = format!("{e}");
+                if e.contains("too-many-open-files") {
+                    // the configured max_open_files was reached: explicit resource-limit error
+                    self.probes.hit("cursor_use_ended_at_max_open_files_limit");
+                    return false;
+                }
                 self.violate(
                     property,
                     format!("{what}:error:{}", err_class(&e)),
@@ -1185,6 +1246,9 @@ impl<'h> Exec<'h> {
                     }
                     refcur = RefCursor::new(held.reference.clone());
                     refcur.idx = held.reference.len() as isize;
+                }
+                Err(e) if e.contains("too-many-open-files") => {
+                    self.probes.hit("cursor_use_ended_at_max_open_files_limit");
                 }
                 Err(e) => {
                     self.violate(
